@@ -62,7 +62,7 @@ def gen_prio2_scenario(rng, tier, style=None, fault=False):
     if style == "alone":
         p = rng.choice(ps)
         for _ in range(H + 2):
-            ops.append((1, p, True))
+            ops.append((6, p, False))     # there from the very beginning: the clean state of the 'alone' clause
             nput += 1
         for _ in range(H + 3):
             ops.append((3, 0, True))
@@ -541,7 +541,8 @@ def replay_driver1(meta, tr):
             consumed_prev[ch] = cnt
         view.append({"held": list(held), "olen": olen, "taken": taken, "pend": pend, "done": done, "consumed": dict(consumed),
                      "snap": snap, "calls": calls, "reg_before": reg_before, "reg_after": dict(reg), "closed": set(closed),
-                     "code": code, "a": a, "b": b, "uncertain": uncertain, "queued": len(queue)})
+                     "code": code, "a": a, "b": b, "uncertain": uncertain, "queued": len(queue),
+                     "nput": dict((c, len(v2)) for c, v2 in per_chan.items())})
         done_prev = bool(done)
     return view, put_chan, per_chan, read_at
 
@@ -637,8 +638,8 @@ def monitor_prio1(kind):
                 for p, ch in ([] if v["uncertain"] else v["reg_after"].items()):
                     if ch not in v["closed"]:
                         fails.append("GracefulStop completed while the input of priority %d is still open" % p)
-                    elif v["consumed"].get(ch, 0) != len(per_chan.get(ch, [])):
-                        fails.append("GracefulStop completed with %d of %d items of channel %d read" % (v["consumed"].get(ch, 0), len(per_chan.get(ch, [])), ch))
+                    elif v["consumed"].get(ch, 0) != v["nput"].get(ch, 0):
+                        fails.append("GracefulStop completed with %d of %d items of channel %d read" % (v["consumed"].get(ch, 0), v["nput"].get(ch, 0), ch))
                 if v["held"] and kind == "C07":
                     fails.append("GracefulStop completed while %d delivered items are unreleased" % len(v["held"]))
                 nread = sum(v["consumed"].values())
@@ -694,3 +695,54 @@ PRIO1_RULE = ("v1 driver scripts in a synctest bubble: 0..3 initial inputs (buff
               "already registered priority, re-add), RemoveInput, optional divider fault, optional Stop()/cancel at a random position, otherwise "
               "GracefulStop finale; every operation is followed by a settle; scenarios in which the model sees a select with several ready "
               "alternatives (or two pending commands) are monitored but not compared")
+
+
+def d4_witness():
+    """known finding D4: v1 has no constructor check; with a zero share the lowest priority starves although nothing is in flight"""
+    cfg = [(3, 0), (2, 1), (1, 2)]
+    ops = [(1, 2, 0, True), (3, 0, 0, True), (3, 0, 0, True), (1, 2, 0, True), (3, 0, 0, True)]
+    enc = enc_prio1(1, 1, 1, cfg, ops)
+    meta = {"divider": "Rate", "H": 1, "ocap": 1, "cfg": cfg, "ops": ops, "style": "d4-witness", "fault": False, "stop": "cancel-cleanup", "nput": 2}
+    meta["stop"] = None
+    return Scenario(enc, "known-finding-witness", meta, nontrivial=True, version="v1")
+
+
+def prio1_progress_generate():
+    gen = prio1_generate(0.0, 0.0)
+
+    def generate(rng, tier):
+        return [d4_witness()] + gen(rng, tier)
+    return generate
+
+
+def monitor_prio1_progress(sc, ir):
+    if ir.verdict != "ok":
+        return [("implementation verdict %s %s" % (ir.verdict, ir.raw[-300:].replace("\n", " ")), None)]
+    m = sc.meta
+    tr = Prio1Trace(ir.vals, len(m["ops"]))
+    if tr.error is not None:
+        return []
+    view, put_chan, per_chan, read_at = replay_driver1(m, tr)
+    H = m["H"]
+    kindn = 0 if m["divider"] == "Fair" else 1
+    fails = []
+    for i, v in enumerate(view):
+        if v["uncertain"] or v["queued"] or v["done"]:
+            continue
+        waiting = [(p, ch) for p, ch in v["reg_after"].items() if v["consumed"].get(ch, 0) < v["nput"].get(ch, 0)]
+        if waiting and not v["held"] and v["olen"] == 0:
+            ps = sorted(v["reg_after"], reverse=True)
+            shares = ref_shares(ps, kindn, H)
+            zero = sorted(p for p in ps if shares.get(p, 0) == 0)
+            key = "prio1-zero-share:%s:H=%d:%s" % (m["divider"], H, ps) if zero else "prio1:%s:%d:%s" % (m["divider"], H, m["cfg"])
+            fails.append(("op %d: items are waiting on priorities %s, nothing is in flight, yet nothing is delivered after settling "
+                          "(shares %s) [%s H=%d inputs=%s]" % (i, sorted(p for p, _ in waiting), shares, m["divider"], H, m["cfg"]), key))
+            break
+    if tr.done == 1 and not m.get("fault"):
+        gi = next((i for i, v in enumerate(view) if v["done"]), len(view) - 1)
+        v = view[gi]
+        if not v["uncertain"]:
+            for p, ch in v["reg_after"].items():
+                if v["consumed"].get(ch, 0) != v["nput"].get(ch, 0) and ch in v["closed"]:
+                    fails.append(("terminated gracefully with items of channel %d unread" % ch, "prio1:%s:%d:%s" % (m["divider"], H, m["cfg"])))
+    return fails[:3]
